@@ -7,9 +7,9 @@
    "not found", "already exists" or success); the three rejections are RLocked, RBadToken, RErr.
    `live_own st t u` = the session table holds a session of token t, not expired at the current time, whose
    user is u.  `grants_run` lists the (token, profile) pairs returned by the Opens of a history. *)
-From Coq Require Import List NArith Bool.
+From Coq Require Import List NArith Bool String.
 Import ListNotations.
-From VF Require Import C19.Model C19.Proofs.
+From VF Require Import C19.Model C19.Proofs C19.GateTypes gen.Gen_C19 C19.Gates.
 Local Open Scope N_scope.
 
 (* FULL STATEMENT, part 1 (repaired code): after ANY history (any number of profiles, instances, opens, closes,
@@ -169,6 +169,51 @@ Theorem import_answer_independent_of_other_profiles_partial : forall st i t kn u
   snd (step Fixed (upd_keys st (keys_of (keys st) u) (next_key st)) (WOp i t (KImportKey kn))).
 Proof. exact import_alone. Qed.
 Print Assumptions import_answer_independent_of_other_profiles_partial.
+
+(* THE SOURCE'S GATE STRUCTURE (generated table, coq/gen/Gen_C19.v: rewritten from /repo on every run).
+   Every exported method of wallet.Wallet and wallet.DidComm that takes a token starts with checkAuth / checkSession
+   of its own token parameter (or does nothing at all: Export / Import), that check is seen to compare this very
+   token with the session table, the token reaches nothing that could not be followed, a method with only the weak
+   check (foreign tokens) presents the token to the store handle or to getSession; the token-free methods are
+   exactly Open, Close, VerifyJWT.  A new method that forgets the check, or checks another string, breaks this. *)
+Theorem every_wallet_method_checks_its_own_token_first : forallb wrow_ok wallet_rows = true.
+Proof. exact wallet_rows_ok_true. Qed.
+Print Assumptions every_wallet_method_checks_its_own_token_first.
+
+Theorem every_token_taking_method_is_gated : forall r, In r wallet_rows -> w_tok r = true -> w_inert r = false ->
+  w_gate r <> GNone /\ w_gate_own r = true /\ w_leaks r = 0%nat.
+Proof. exact every_token_method_gated. Qed.
+Print Assumptions every_token_taking_method_is_gated.
+
+(* the two checks compare with the user the wallet object was made for, by look-ups that do not re-arm the expiry *)
+Theorem the_checks_compare_with_the_wallets_own_user : checks_ok = true.
+Proof. exact checks_ok_true. Qed.
+Print Assumptions the_checks_compare_with_the_wallets_own_user.
+
+(* vcwallet.Client: every method takes the token from c.auth() first (set by Open to the token wallet.Open returned,
+   reset by Close) and forwards it, as first argument, to the checked wallet / didcomm method of its own name *)
+Theorem client_forwards_its_own_token_to_the_method_of_its_name : client_rows_ok = true.
+Proof. exact client_rows_ok_true. Qed.
+Print Assumptions client_forwards_its_own_token_to_the_method_of_its_name.
+
+(* command controller: every handler makes the wallet for the user OF THE REQUEST and calls the method of its own
+   name with the token OF THE SAME REQUEST *)
+Theorem command_routes_user_and_token_of_one_request : command_rows_ok = true.
+Proof. exact command_rows_ok_true. Qed.
+Print Assumptions command_routes_user_and_token_of_one_request.
+
+(* the per-method gate tables of the model (pre_session, store_use, uses_km; the content and key operations) are
+   what the source methods do, in both directions *)
+Theorem model_gates_are_the_source_gates : model_consistent = true.
+Proof. exact model_consistent_true. Qed.
+Print Assumptions model_gates_are_the_source_gates.
+
+Example gate_table_nonvacuous :
+  Nat.leb 22 (List.length wallet_rows) = true /\ Nat.leb 20 (List.length client_rows) = true /\
+  Nat.leb 18 (List.length command_rows) = true /\
+  option_map w_gate (wrow_named RDidComm "PresentProof"%string) = Some GSession /\
+  option_map w_sinks (wrow_named RWallet "Prove"%string) = Some [SkGet; SkOpen; SkOther; SkSoft].
+Proof. vm_compute. repeat split. Qed.
 
 (* NON-VACUITY: a concrete two-profile history in which own tokens are admitted and return data, a foreign live
    token, a closed token, an expired token and a never-issued token are rejected, and a use re-arms the expiry *)
